@@ -245,7 +245,8 @@ def run_topk(case):
         else:
           accs[op[1]] = aggfn.merge_states([accs[op[1]], accs[op[2]]])
       elif name == 'merge_states':
-        accs[op[1][0]] = aggfn.merge_states([accs[i] for i in op[1]])
+        from harness.lib_states import pack   # case['container']: list (default) / tuple / generator / ... (SC11)
+        accs[op[1][0]] = aggfn.merge_states(pack([accs[i] for i in op[1]], case.get('container')))
       elif name == 'result':
         r = accs[op[1]].result() if api == 'object' else aggfn.get_result(accs[op[1]])
         obs.append({'result': _res_obs(r, cfg['metrics'])})
@@ -298,6 +299,11 @@ def run_thr(case):
                               'p_trues': int(cm.p_trues), 'p_preds': canon(np.asarray(cm.p_preds))}})
       elif name == 'merge':
         accs[op[1]].merge(accs[op[2]])
+      elif name == 'merge_states':    # ThresholdedRetrieval through base.as_agg_fn -> MergeableMetricAggFn (SC11)
+        from ml_metrics._src.aggregates import base as B
+        from harness.lib_states import pack
+        fn = B.as_agg_fn(R.ThresholdedRetrieval, thresholds=tuple(ts), metrics=tuple(names))
+        accs[op[1][0]] = fn.merge_states(pack([accs[i] for i in op[1]], case.get('container')))
       elif name == 'result':
         r = accs[op[1]].result()
         out = []
@@ -340,6 +346,10 @@ def run_mean(case):
           obs.append({'batch': [canon(float(b.total)), int(b.count)]})
       elif name == 'merge':
         accs[op[1]].merge(accs[op[2]])
+      elif name == 'merge_states':    # MeanState / TupleMeanState through base.as_agg_fn (SC11)
+        from ml_metrics._src.aggregates import base as B
+        from harness.lib_states import pack
+        accs[op[1][0]] = B.as_agg_fn(cls).merge_states(pack([accs[i] for i in op[1]], case.get('container')))
       elif name == 'result':
         obs.append({'result': res(accs[op[1]].result())})
       elif name == 'call':
